@@ -620,4 +620,67 @@ example :
     (tx w blk0 (.bond "alice" [("ustake", 18446744073709551615)])).isOk = true := by
   decide
 
+
+/-! ## A liveness quirk of `update_membership`: `total + new − old` is evaluated left to right
+
+`TOTAL.update(|t| t + new − old)` computes `total + new` first, in `u64` with overflow checks.  While a
+member's old weight is still part of the total, `total + new` counts that member twice, so the
+intermediate sum can exceed `u64::MAX` although the final value `total − old + new` fits.  The
+transaction then panics and is rolled back: a *partial* unbond (or a further bond) by a very large
+staker can be refused.  Nothing is recorded wrongly — this is **not a violation of C10** (stakes stay
+backed, weights stay exact quotients, nobody's stake changes; the staker can still exit by unbonding
+down below `min_bond`, which makes `new = 0`) — it is a liveness quirk, documented here precisely. -/
+
+/-- **`update_total_ok_of_room`** (the general positive statement): when the new weight is computable
+(`calc_weight` succeeds), the member's old weight is part of the total (always true after an
+instantiation: C09 `total_eq_sum_members` / `no_underflow`) and there is room for the intermediate sum,
+`total + new ≤ u64::MAX`, then `update_membership` — hence the update of the total — cannot fail, and
+its result is the closed form `um`. -/
+theorem update_total_ok_of_room {s : State} {h : Nat} {a : Addr} {ns : Nat} {new : Option Nat}
+    (hc : calcWeight s.cfg ns = .ok new) (hpart : (s.members.get? a).getD 0 ≤ s.total)
+    (hroom : s.total + new.getD 0 ≤ U64_MAX) :
+    updateMembership s h a ns = .ok (um s h a new) := by
+  unfold updateMembership um
+  simp only [hc, bind, Except.bind]
+  by_cases hn : new = s.members.get? a
+  · simp [hn, pure, Except.pure]
+  · have h2 : (s.members.get? a).getD 0 ≤ s.total + new.getD 0 := by omega
+    simp [hn, addU64, subU64, hroom, h2, pure, Except.pure]
+
+/-- The converse: when the weight changes and the intermediate sum does not fit, `update_membership`
+fails with the `u64` overflow — whatever the final value would have been. -/
+theorem update_total_overflow_of_no_room {s : State} {h : Nat} {a : Addr} {ns : Nat} {new : Option Nat}
+    (hc : calcWeight s.cfg ns = .ok new) (hne : new ≠ s.members.get? a)
+    (hno : U64_MAX < s.total + new.getD 0) :
+    updateMembership s h a ns = .error "overflow.u64" := by
+  unfold updateMembership
+  have : ¬ (s.total + new.getD 0 ≤ U64_MAX) := by omega
+  simp [hc, bind, Except.bind, hne, addU64, this]
+
+/-- tokens_per_weight = 1, min_bond = 1, no admin -/
+def bigCfg : InstMsg := ⟨.native "ustake", 1, 0, .height 5, none⟩
+/-- alice owns 2^64 − 1 stake tokens -/
+def bigWorld : World := World.init (stOf bigCfg) [("alice", 18446744073709551615)] []
+/-- … and has bonded them all: weight = total = 2^64 − 1 -/
+def bigBonded : World := step bigWorld blk0 (.bond "alice" [("ustake", 18446744073709551615)])
+
+/-- **`unbond_may_overflow_total`** (concrete instance on the model): with `tokens_per_weight = 1` a bond
+of 2^64 − 1 is accepted (weight and total 2^64 − 1); then `unbond 4` — new weight 2^64 − 5, final total
+2^64 − 5, both representable — is refused with the `u64` overflow tag because `total + new = 2^65 − 6`
+is computed first; the state is unchanged by the failed transaction, and unbonding everything (new
+weight 0) still works. -/
+theorem unbond_may_overflow_total :
+    (tx bigWorld blk0 (.bond "alice" [("ustake", 18446744073709551615)])).isOk = true ∧
+    bigBonded.st.total = 18446744073709551615 ∧ weightOf bigBonded.st "alice" = some 18446744073709551615 ∧
+    (tx bigBonded blk0 (.unbond "alice" 4)).tag = "overflow.u64" ∧
+    stakeOf (step bigBonded blk0 (.unbond "alice" 4)).st "alice" = 18446744073709551615 ∧
+    (tx bigBonded blk0 (.unbond "alice" 18446744073709551615)).isOk = true := by
+  decide
+
+/-- non-vacuity of `update_total_ok_of_room` / `update_total_overflow_of_no_room` on concrete states -/
+example : updateMembership demoWorld.st 200 "alice" 17 = .ok (um demoWorld.st 200 "alice" (some 1)) :=
+  update_total_ok_of_room (by rfl) (by decide) (by decide)
+example : updateMembership bigBonded.st 200 "alice" 18446744073709551611 = .error "overflow.u64" :=
+  update_total_overflow_of_no_room (new := some 18446744073709551611) (by rfl) (by decide) (by decide)
+
 end CwPlus.Props.C10
